@@ -224,3 +224,33 @@ func planC11(tier string, seed uint64) *Plan {
 	p.Phases = []Phase{{Name: "feeds", Groups: randomPlan("c11", seed, swarmCfgs(seed, n), jobs, count, "stub")}}
 	return p
 }
+
+func init() { plans["C09"] = planC09 }
+
+func planC09(tier string, seed uint64) *Plan {
+	p := &Plan{
+		Level: "exploration",
+		Rule: "seeded three-host worlds: an actor's outbox, a post's reply collection (paged layouts of C10) or posts opened directly, whose entries mix legitimate ones with every impostor kind (other actor same/other host, no actor, look-alike id, remote activity by a foreign actor, embedded copy claiming a foreign id, reply to another post, no inReplyTo, embedded copy lying about the parent, foreign-host author, failing fetch, wrong type); harvested items compared position by position with the generator's ground truth (genuine token or error item). Non-trivial = every run; distinct = distinct (world tape, event order) fingerprint.",
+	}
+	n, jobs, count := 16, 2, 200
+	if tier == "thorough" {
+		n, jobs, count = 32, 4, 3000
+	}
+	p.Phases = []Phase{{Name: "listings", Groups: randomPlan("c09", seed, swarmCfgs(seed, n), jobs, count, "auto")}}
+	return p
+}
+
+func init() { plans["C02"] = planC02 }
+
+func planC02(tier string, seed uint64) *Plan {
+	p := &Plan{
+		Level: "exploration",
+		Rule: "seeded adversarial worlds: two honest hosts and an attacker host (with a wildcard certificate) that presents victims' ids in every shape (full embedding, stubs, attacker URL serving a body with the victim's id, redirect to the victim, the victim host's own open redirect to a forgery, look-alike authorities with port/case/userinfo/subdomain, missing id, top-level body claiming a victim id) at every reference position (inReplyTo, audience, actor, object, outbox pages and items, replies); entry points explored in seeded orders, sequentially and concurrently, with repeats, via pub.New and client.FetchUnknown, under cache sizes 1..128. Every served body is stamped with the serving host; oracles: (object,id) pairs returned by FetchUnknown and every displayed text. Non-trivial = every run; distinct = distinct (world tape, event order) fingerprint.",
+	}
+	n, jobs, count := 16, 2, 120
+	if tier == "thorough" {
+		n, jobs, count = 32, 4, 2000
+	}
+	p.Phases = []Phase{{Name: "provenance", Groups: randomPlan("c02", seed, swarmCfgs(seed, n), jobs, count, "auto")}}
+	return p
+}
